@@ -586,6 +586,13 @@ func (s *SweepingProvider) schedulePrefixNoLock(prefix bitstr.Key, justReprovide
 		return
 	}
 	// Unschedule superstrings in schedule if any.
+	if _, subsumes := keyspace.FindSubtrie(s.schedule, prefix); subsumes && !justReprovided && s.reprovideQueue != nil {
+		// The regions consolidated into `prefix` lose their pending reprovides
+		// and `prefix` may only come up at the end of the cycle: have the whole
+		// region caught up with the late regions instead (retry tick at the
+		// latest), so that none of its keys waits longer than one interval.
+		s.reprovideQueue.Enqueue(prefix)
+	}
 	s.unscheduleSubsumedPrefixesNoLock(prefix)
 
 	s.schedule.Add(prefix, nextReprovideTime)
